@@ -207,6 +207,11 @@ def judge(ctx: core.Ctx, case: dict[str, Any]) -> None:
             # empty values": these two are defined for every left value, so an error is not an open cell
             ctx.evaluations += 1
             ctx.violation(f"contract:{sig_of(name, args)}:raises-{o.err_class}", f"{name} raised {o.err_class} for args={case['args']!r:.200} ({case.get('via', 'direct')}); it is defined for every input")
+        elif S.defined_for(name, args, kwargs):
+            # the documented use of a list filter (a list of strings / integers / hashes whose values under the key are all strings or all
+            # integers, ties and items without the key included): "return new lists", so an error is not an open cell either
+            ctx.evaluations += 1
+            ctx.violation(f"contract:{sig_of(name, args)}:raises-{o.err_class}", f"{name} raised {o.err_class}: {drv.safe_str(o.exc)[:80]} for args={case['args']!r:.200} ({case.get('via', 'direct')}); it returns a list for such input")
         else:
             ctx.count("liquid_error_not_judged")
         return
@@ -248,6 +253,11 @@ HASHLISTS: list[Any] = [
     [{"t": "B"}, {"t": "a"}, {"u": 1}],
     [],
     [{"k": 0, "t": "z"}, {"k": 1, "t": ""}, {"k": "", "t": "e"}, {"k": "x"}, {"j": 2}],
+    # ties under the key: equal values, values that differ only in case, and several items without the key
+    [{"t": "a", "n": 1}, {"t": "A", "n": 2}, {"t": "a", "n": 3}, {"u": 1}, {"u": 2}],
+    [{"k": "x"}, {"k": "x"}],
+    [{"k": 2, "t": "b"}, {"k": 2, "t": "B"}, {"k": 1, "t": "b"}],
+    [{"j": 1}, {"j": 2}],
 ]
 OTHERS: list[Any] = [None, True, False, {}, {"a": 1}, UNDEF]
 
